@@ -61,6 +61,14 @@ SITES = {
     "trbody_dict": '<r><p i18n:translate="">a<b tal:attributes="d" u="2">d</b>c</p></r>',
     "content_translate": '<r><t tal:content="v" i18n:translate="">d</t></r>',
     "replace_translate": '<r>x<t tal:replace="v" i18n:translate="">d</t>y</r>',
+    # the fallback of tal:on-error is an insertion of its own: text unless ITS clause says structure, whatever the
+    # element's own tal:content / tal:replace says; also through a string: expression and on a translated element
+    "onerror": '<r><t tal:on-error="v">d${1/0}</t></r>',
+    "onerror_string": '<r><t tal:on-error="string:x${v}y">d${1/0}</t></r>',
+    "onerror_beside_structure": '<r><t tal:content="structure 1/0" tal:on-error="v">d</t></r>',
+    "onerror_beside_structure_replace": '<r>x<t tal:replace="structure 1/0" tal:on-error="v">d</t>y</r>',
+    "onerror_text_kw": '<r><t tal:content="structure 1/0" tal:on-error="text v">d</t></r>',
+    "onerror_translate": '<r><t i18n:translate="" tal:on-error="v">d${1/0}</t></r>',
     # opt-outs
     "structure_kw": '<r><t tal:content="structure v">d</t></r>',
     "structure_expr": '<r>x${structure: v}y</r>',
@@ -72,7 +80,7 @@ KINDS = ["str", "strsub", "bytes", "obj", "msg", "intsub", "floatsub", "trkey", 
 SITE_OPTS = {"implicit_text": {"implicit_i18n_translate": True}, "implicit_attr": {"implicit_i18n_attributes": {"title"}}}
 # plain-str message ids whose catalogue translation is the hostile text: only where the value itself is a message id
 CATALOG = {}
-CATKEY_SITES = ("content_translate", "replace_translate")
+CATKEY_SITES = ("content_translate", "replace_translate", "onerror_translate")
 
 
 class StrSub(str):
